@@ -113,7 +113,7 @@ ReplaceNones(t, sid, c) ==
   ELSE IF KindOf(t, c) = "leaf" THEN t
   ELSE [t EXCEPT !.id = 0 - 1, !.ch = [i \in DOMAIN t.ch |-> ReplaceNones(t.ch[i], sid, c)]]
 RECURSIVE SortableT(_)
-SortableT(t) == /\ t.k \in {"dict", "ddict"} => (AllComparable(t.keys) \/ SameTypeComparable(t.keys))
+SortableT(t) == /\ t.k \in {"dict", "ddict"} => ((AllComparable(t.keys) \/ SameTypeComparable(t.keys)) /\ NoTies(t.keys))
                 /\ \A i \in DOMAIN t.ch : SortableT(t.ch[i])
 C02Laws(c) ==
   LET ok(r) == r.err = "" IN
